@@ -9,4 +9,5 @@ const Enabled = false
 
 func Hold(*pool.Message, string)            {}
 func Unhold(*pool.Message)                  {}
+func Points()                               {}
 func Stats() (acquired, released, checks int) { return }
